@@ -58,10 +58,12 @@ def run(rep, tier):
     stoporder(rep, dbg)
     listener(rep, dbg, vm)
     doneflag(rep, dbg)
+    dispatch_paths(rep, vm)
+    shared(rep, dbg)
 
 
 def lock(rep, dbg):
-    r = rep.rule("C17.LOCK", 6, "no lock guard of the breakpoint set is live across send / park / join")
+    r = rep.rule("C17.LOCK", 4, "no lock guard of the breakpoint set is live across send / park / join")
     for fn in dbg.bodies:
         if fn.get("exp"):
             continue
@@ -297,3 +299,59 @@ def doneflag(rep, dbg):
     r.instance("cont", where(c["body"]))
     if not ok:
         r.violation("cont", where(c["body"]), "cont() unparks without (or before) checking the done flag")
+
+
+def dispatch_paths(rep, vm):
+    r = rep.rule("C17.ENTRYPATHS", 1,
+                 "every way of entering a rule in the VM goes through the listener: the function that looks the rule "
+                 "up and runs it either consults the listener first itself or is reachable only through the function "
+                 "that does")
+    # dispatcher: the Vm method that looks up `self.rules.get(..)`
+    disp = [b for b in vm.bodies if b.get("impl_self") == "pest_vm::Vm" and any(
+        kind(x) == "MethodCall" and x["m"] == "get" and "HashMap" in x.get("rty", "") for x in walk(b["body"]))]
+    if not disp:
+        r.lost("the Vm method that looks up and runs a rule")
+        return
+    cg = hirq.CallGraph([vm])
+    for d in disp:
+        asks = any(kind(x) == "Call" and isinstance(callee(x), tuple) and callee(x)[2] == "listener" for x in walk(d["body"]))
+        r.instance(d["path"], where(d["body"]), "consults the listener itself: %s" % asks)
+        if asks:
+            continue
+        for (p, n) in cg.callers_of(d["path"]):
+            caller = vm.fn(p)
+            c_asks = caller is not None and any(kind(x) == "Call" and isinstance(callee(x), tuple) and callee(x)[2] == "listener"
+                                                for x in walk(caller["body"]))
+            if p == d["path"]:
+                continue
+            if not c_asks:
+                r.violation("bypass:%s<-%s" % (d["name"], p.split("::")[-1]), where(n),
+                            "%s enters a rule through %s without offering the entry to the listener: breakpoints on "
+                            "rules entered this way (implicit WHITESPACE/COMMENT) are never delivered and a stop request "
+                            "is not honoured there" % (p.split("::")[-1], d["name"]))
+
+
+def shared(rep, dbg):
+    r = rep.rule("C17.SHARED", 2,
+                 "the handles shared with the parser thread (Arc fields of DebuggerContext) are never re-assigned "
+                 "after construction: both threads keep looking at the same flag and the same breakpoint set")
+    adt = dbg.adt(DC)
+    if adt is None:
+        r.lost("DebuggerContext")
+        return
+    arcs = [f["name"] for f in adt["variants"][0]["fields"] if f["ty"].startswith("alloc::sync::Arc<")]
+    for nm in arcs:
+        r.instance("field:" + nm, where(adt))
+    if not arcs:
+        r.lost("Arc fields of DebuggerContext")
+    for fn in dbg.bodies:
+        if fn.get("exp"):
+            continue
+        for x in walk(fn["body"]):
+            if kind(x) == "Assign":
+                t_ = hirq.field_write_target(x)
+                if t_ and t_[1] in arcs and "DebuggerContext" in t_[0]:
+                    r.violation("reassign:%s<-%s" % (t_[1], fn["path"].split("::")[-1]), where(x),
+                                "%s replaces the shared handle `%s`: a running parser thread holds a clone of the old "
+                                "one, so it keeps stopping at (or ignoring) breakpoints the controller no longer sees"
+                                % (fn["name"], t_[1]))
